@@ -256,8 +256,7 @@ theorem originAllowed_iff (h : Handler) (u : Url) :
 
 theorem joinHostPort_localhost (port : Bytes) : joinHostPort sLocalhost port = hpLocalhost port := by
   have h1 : sLocalhost.contains colon = false := by decide
-  have h2 : sLocalhost.contains percent = false := by decide
-  unfold joinHostPort hpLocalhost; rw [h1, h2]; rfl
+  unfold joinHostPort hpLocalhost; rw [h1]; rfl
 
 theorem joinHostPort_v6 (port : Bytes) : joinHostPort sV6Loop port = hpV6Loop port := by
   have h1 : sV6Loop.contains colon = true := by decide
@@ -265,8 +264,7 @@ theorem joinHostPort_v6 (port : Bytes) : joinHostPort sV6Loop port = hpV6Loop po
 
 theorem joinHostPort_v4 (port : Bytes) : joinHostPort sV4Loop port = hpV4Loop port := by
   have h1 : sV4Loop.contains colon = false := by decide
-  have h2 : sV4Loop.contains percent = false := by decide
-  unfold joinHostPort hpV4Loop; rw [h1, h2]; rfl
+  unfold joinHostPort hpV4Loop; rw [h1]; rfl
 
 theorem entryAllowed_some (e : OriginEntry) (al : Allowed) :
     entryAllowed e = some al ↔
